@@ -174,6 +174,21 @@ func TestC12(t *testing.T) {
 				}
 			}
 		}
+		// text keys: a value longer than the field whose first bytes are a registered key is NOT a registered
+		// value (no wire field can carry it): the encoder must not fill in a type for it
+		for ti, tb := range TableList {
+			if !MyShare(ti) || tb.KeyType != "text" {
+				continue
+			}
+			for ki, key := range tb.Order {
+				for _, suffix := range []string{"1", "X", "00", "\x00"} {
+					k2 := key + suffix
+					c := &CaseC12{Table: tb.QName, Holder: holderOf(tb), Key: k2, Dir: "enc-absent", V: holderWithKey(seed+ki, tb, k2, false, "")}
+					c12Record(c, "registered-key-plus-extra-bytes")
+					Direct(t, "C12", "c12", fmt.Sprintf("overlong/%s/%q", tb.QName, k2), c, oracleC12)
+				}
+			}
+		}
 		Col.MarkExhaustive("all 226 registered keys of the 18 pinned tables x {decode, encode-with-absent-part, round trip}")
 	})
 	t.Run("enumerated-keyspace", func(t *testing.T) {
